@@ -1,4 +1,5 @@
-import StoneVerif.Lemmas.FeCompileLegalAccept
+import StoneVerif.Lemmas.FeCompileLegalIff
+import StoneVerif.Props.C02Compile
 /-!
 # C01 for the compile model: accepted = legal
 
@@ -6,10 +7,19 @@ import StoneVerif.Lemmas.FeCompileLegalAccept
 files, written without reference to the order of files, declarations or passes (names: `FeNames.NoClash`; imports;
 references; aliases; structs and unions; enumerated subtypes; routes).  `compile` follows the passes of
 `IRGenerator.generate_IR`.  `rx` says which patterns `re.compile` accepts; `nsLexical fs` says that namespace names
-are identifiers (no `/`) -- a fact about the parser's output (token `ID`), not a rule.
+are identifiers (no `/`) -- a fact about the parser's output (token `ID`), not a rule; it is what makes the canonical
+keys of C01's name model unambiguous (`FeNames.register_ok_iff_noclash`).
 -/
 namespace StoneVerif.C01Compile
 open StoneVerif.FeCompile
+
+/-- **Accepted = legal.** The model of the IR generator accepts a set of spec files exactly when the files obey every
+rule: each check of each pass -- made in the order the passes run, against the aliases set and the types populated at
+that moment -- is, taken together with the others, the order-free rule; and the rules leave nothing for a check to
+trip over. -/
+theorem compile_ok_iff_legal (rx : String → Bool) (fs : List File) (hl : nsLexical fs = true) :
+    (∃ api, compile rx fs = .ok api) ↔ Legal rx fs = true :=
+  L.compile_ok_iff_legal rx fs hl
 
 /-- **Never refused.** A set of spec files that violates no rule is compiled: no pass refuses it -- and none of
 the model's recursion bounds is hit, no impossible state is reached (`outOfFuel`, `fuelAlias`, `fuelAncestors`,
@@ -18,11 +28,117 @@ theorem legal_accepted (rx : String → Bool) (fs : List File) (hl : nsLexical f
     ∃ api, compile rx fs = .ok api :=
   L.legal_compile_ok hl h
 
+/-- **Every violation is reported.** A set of spec files that violates a rule -- any rule, anywhere, in any order of
+files and declarations -- is refused. (WHICH error is raised when several rules are violated follows the order of
+the passes; the correspondence suite compares the kinds on single violations.) -/
+theorem violation_refused (rx : String → Bool) (fs : List File) (hl : nsLexical fs = true) (h : Legal rx fs = false) :
+    ∃ e, compile rx fs = .error e := by
+  cases hc : compile rx fs with
+  | error e => exact ⟨e, rfl⟩
+  | ok api =>
+    have := L.compile_legal hl hc
+    rw [h] at this
+    cases this
+
+/-- **Whatever is refused violates a rule** (`compile_error_sound`): an error of any kind -- the kinds of the
+`InvalidSpec` sites, and the model's own `crash` / fuel / `internal` answers alike -- is only ever produced on input
+that is not legal. -/
+theorem compile_error_sound (rx : String → Bool) (fs : List File) (hl : nsLexical fs = true) (e : Err)
+    (h : compile rx fs = .error e) : Legal rx fs = false := by
+  cases hL : Legal rx fs with
+  | false => rfl
+  | true =>
+    obtain ⟨api, hapi⟩ := L.legal_compile_ok hl hL
+    rw [h] at hapi
+    cases hapi
+
+/-- **Acceptance does not depend on the arrangement**: `Legal` mentions the files only through the declarations of
+each namespace, the set of namespaces and C01's name rules; stated for two inputs that are both lexical and have the
+same verdict of `Legal` this is `compile_ok_iff_legal` twice. -/
+theorem acceptance_by_rules (rx : String → Bool) (fs fs' : List File) (hl : nsLexical fs = true)
+    (hl' : nsLexical fs' = true) (h : Legal rx fs = Legal rx fs') :
+    (∃ api, compile rx fs = .ok api) ↔ (∃ api, compile rx fs' = .ok api) := by
+  rw [compile_ok_iff_legal rx fs hl, compile_ok_iff_legal rx fs' hl', h]
+
 /-- **Names and imports, both ways.** The first two passes (registration with the canonical-name check; imports)
 accept exactly the inputs whose names obey `FeNames.NoClash` and whose imports are not reflexive, name existing
 namespaces and form no cycle. -/
 theorem buildEnv_ok_iff (fs : List File) (hl : nsLexical fs = true) :
     isOk (buildEnv fs) = (namesLegal fs && importsLegal fs) :=
   L.buildEnv_ok_iff fs hl
+
+section Examples
+
+def href (n : String) (nullable := false) : RefHead := { ns := none, name := n, kw := [], nullable := nullable }
+def ref (n : String) (nullable := false) : TRef := .leaf (href n nullable) []
+def one (ds : List Decl) : List File := [{ ns := "na", decls := ds }]
+def errOf {α} : Except Err α → Option Err
+  | .error e => some e
+  | .ok _ => none
+def rx1 : String → Bool := fun _ => true
+
+/-- a legal input: accepted, and `Legal` -/
+example : Legal rx1 StoneVerif.C02Compile.sample = true ∧ (compile rx1 StoneVerif.C02Compile.sample).toOption.isSome = true := by
+  decide +kernel
+
+/-- one illegal input per group of rules: refused with the kind of the violated rule, and not `Legal` -/
+example : errOf (compile rx1 (one [.alias "A" (ref "String"), .type { name := "A", kind := .struct }])) = some .symbolDefined ∧
+    Legal rx1 (one [.alias "A" (ref "String"), .type { name := "A", kind := .struct }]) = false := by decide +kernel
+
+example : errOf (compile rx1 [{ ns := "na", decls := [.imp "nb"] }, { ns := "nb", decls := [.imp "na"] }]) = some .importCircular ∧
+    Legal rx1 [{ ns := "na", decls := [.imp "nb"] }, { ns := "nb", decls := [.imp "na"] }] = false := by decide +kernel
+
+example : errOf (compile rx1 (one [.type { name := "S", kind := .struct, fields := [{ name := "x", ty := some (ref "T") }] }]))
+      = some .undefinedSymbol ∧
+    Legal rx1 (one [.type { name := "S", kind := .struct, fields := [{ name := "x", ty := some (ref "T") }] }]) = false := by
+  decide +kernel
+
+example : errOf (compile rx1 (one [.type { name := "S", kind := .struct, fields := [{ name := "x", ty := some (ref "N" true) }] },
+                                    .alias "N" (ref "String" true)])) = some .nullableNullable ∧
+    Legal rx1 (one [.type { name := "S", kind := .struct, fields := [{ name := "x", ty := some (ref "N" true) }] },
+                    .alias "N" (ref "String" true)]) = false := by decide +kernel
+
+example : errOf (compile rx1 (one [.alias "A" (ref "B"), .alias "B" (.app1 (href "List") (ref "A"))])) = some .aliasCycle ∧
+    Legal rx1 (one [.alias "A" (ref "B"), .alias "B" (.app1 (href "List") (ref "A"))]) = false := by decide +kernel
+
+example : errOf (compile rx1 (one [.type { name := "S", kind := .struct, «extends» := some (ref "T") },
+                                    .type { name := "T", kind := .struct, «extends» := some (ref "S") }])) = some .circular ∧
+    Legal rx1 (one [.type { name := "S", kind := .struct, «extends» := some (ref "T") },
+                    .type { name := "T", kind := .struct, «extends» := some (ref "S") }]) = false := by decide +kernel
+
+example : errOf (compile rx1 (one [.type { name := "S", kind := .struct, «extends» := some (ref "P"),
+                                            fields := [{ name := "x", ty := some (ref "Int32") }] },
+                                    .type { name := "P", kind := .struct, fields := [{ name := "x", ty := some (ref "String") }] }]))
+      = some .parentField ∧
+    Legal rx1 (one [.type { name := "S", kind := .struct, «extends» := some (ref "P"),
+                            fields := [{ name := "x", ty := some (ref "Int32") }] },
+                    .type { name := "P", kind := .struct, fields := [{ name := "x", ty := some (ref "String") }] }]) = false := by
+  decide +kernel
+
+example : errOf (compile rx1 (one [.type { name := "P", kind := .union false, fields := [{ name := "a", ty := none }] },
+                                    .type { name := "C", kind := .union true, «extends» := some (ref "P") }])) = some .closedExtendsOpen ∧
+    Legal rx1 (one [.type { name := "P", kind := .union false, fields := [{ name := "a", ty := none }] },
+                    .type { name := "C", kind := .union true, «extends» := some (ref "P") }]) = false := by decide +kernel
+
+example : errOf (compile rx1 (one [.type { name := "S", kind := .struct,
+                                            fields := [{ name := "x", ty := some (.app1 (href "List") (ref "String")), hasDefault := true }] }]))
+      = some .defaultNotAllowed ∧
+    Legal rx1 (one [.type { name := "S", kind := .struct,
+                            fields := [{ name := "x", ty := some (.app1 (href "List") (ref "String")), hasDefault := true }] }]) = false := by
+  decide +kernel
+
+example : errOf (compile rx1 (one [.type { name := "R", kind := .struct, subtypes := some ([("a", ref "A")], false) },
+                                    .type { name := "A", kind := .struct, «extends» := some (ref "R") },
+                                    .type { name := "B", kind := .struct, «extends» := some (ref "R") }])) = some .missingSubtype ∧
+    Legal rx1 (one [.type { name := "R", kind := .struct, subtypes := some ([("a", ref "A")], false) },
+                    .type { name := "A", kind := .struct, «extends» := some (ref "R") },
+                    .type { name := "B", kind := .struct, «extends» := some (ref "R") }]) = false := by decide +kernel
+
+example : errOf (compile rx1 (one [.route { name := "r", version := 1, arg := ref "Void", result := ref "Void",
+                                             error := some (ref "Void"), deprecated := some (some ("s", 1)) }])) = some .undefinedRoute ∧
+    Legal rx1 (one [.route { name := "r", version := 1, arg := ref "Void", result := ref "Void",
+                             error := some (ref "Void"), deprecated := some (some ("s", 1)) }]) = false := by decide +kernel
+
+end Examples
 
 end StoneVerif.C01Compile
